@@ -24,6 +24,10 @@
 (*   relation [id, tags, members, meta]    members[k] = [t, ref, role]     *)
 (*   tags     sequence of <<key, value>>, keys unique                      *)
 (*   meta     [timestamp, version, changeset, user, uid], 0 = absent       *)
+(*   ids      [node, way, relation] |-> id class: how the renderer maps the *)
+(*            small abstract ids of that type to concrete ids ("small" k,   *)
+(*            "i31" around 2^31, "i32" around 2^32, "top40" 2^40-k,         *)
+(*            "neg" -k, "at40" 2^40+k-1, "over40" 2^40+7+k-1)               *)
 (*   feature  [fid, t, id, g, c, hastags, tags, hasmeta, meta, hasrels,    *)
 (*             rels, tainted, xkeys]                                       *)
 EXTENDS Integers, Sequences, FiniteSets, TLC, SequencesExt
@@ -156,13 +160,26 @@ Shoelace2(r) == IF Len(r) < 2 THEN 0
 (* ======================================================================= *)
 (* Model: Convert, pass by pass                                            *)
 (* ======================================================================= *)
+\* ---- id classes.  osm.FeatureID packs the type into the top byte and the id into 40 bits below it
+\* (feature.go: refMask, typeMask): ids 1 .. 2^40-1 fit, negative ids and ids >= 2^40 do not.
+IdClasses == {"small", "i31", "i32", "top40", "neg", "at40", "over40"}
+Fits(c) == c \in {"small", "i31", "i32", "top40"}
+SmallIds == [node |-> "small", way |-> "small", relation |-> "small"]
+\* The tree as it is keys the membership map by FeatureID (convert.go:83-88, 305): for a negative id the shifted
+\* id sets every bit of the type byte, so node -k, way -k and relation -k share one key; ids >= 2^40 spill into
+\* the type byte but stay distinct per type within the id classes used here.
+KeyOf(ds, t, id) == IF ds.ids[t] = "neg" THEN <<"neg", id>> ELSE <<t, id>>
+\* What Convert is meant to do does not depend on the id class: the ideal variant of the Model is the Model on
+\* the same data set with ids that fit.
+Ideal(ds) == [ds EXCEPT !.ids = SmallIds]
+
 \* ---- membership map (convert.go:59-90)
 Flat(ds) == FlattenSeq([i \in DOMAIN ds.rels |->
                           [j \in DOMAIN ds.rels[i].members |-> <<ds.rels[i], ds.rels[i].members[j]>>]])
 Memberships(ds, O, t, id) ==
-  LET sel == SelectSeq(Flat(ds), LAMBDA p : /\ p[2].t = t /\ p[2].ref = id
-                                            /\ ("NoRM" \in O => t = "node")
-                                            /\ (t = "way" => HasWay(ds, id)))
+  LET sel == SelectSeq(Flat(ds), LAMBDA p : /\ KeyOf(ds, p[2].t, p[2].ref) = KeyOf(ds, t, id)
+                                            /\ ("NoRM" \in O => p[2].t = "node")
+                                            /\ (p[2].t = "way" => HasWay(ds, p[2].ref)))
   IN [k \in DOMAIN sel |-> [id |-> sel[k][1].id, role |-> sel[k][2].role, tags |-> sel[k][1].tags]]
 
 \* ---- feature construction + addMetaProperties (convert.go:165-183, 201-231, 303-387)
@@ -172,6 +189,11 @@ Feat(ds, O, t, e, g, c, tags, tainted) ==
    hasmeta |-> "NoMeta" \notin O, meta |-> IF "NoMeta" \in O THEN ZeroMeta ELSE e.meta,
    hasrels |-> "NoRM" \notin O, rels |-> IF "NoRM" \in O THEN << >> ELSE Memberships(ds, O, t, e.id),
    tainted |-> tainted, xkeys |-> << >>]
+\* buildPolygon takes type and id of its feature from FeatureID().Type() / .Ref() (build_polygon.go:162-169):
+\* for an id that does not fit, the type comes out empty and the id is the low 40 bits ("?" / -1 for the recorder)
+PolyFeat(ds, O, t, e, g, c, tags, tainted) ==
+  LET f == Feat(ds, O, t, e, g, c, tags, tainted) IN
+  IF Fits(ds.ids[t]) THEN f ELSE [f EXCEPT !.fid = IF "NoID" \in O THEN "" ELSE "?", !.t = "", !.id = -1]
 
 \* ---- mputil.Join (internal/mputil/join.go), lines only: segment flags play no role without
 \*      member orientation.  `cur` is the concatenation of the current group's lines.
@@ -263,8 +285,8 @@ PolyResult(ds, O, r, used, fixed) ==
                 ow   == WayOf(ds, om[1].ref)
                 old  == ~InterestingBut(r.tags, << <<"type", "true">> >>)
             IN IF old /\ ~(fixed /\ ow.id \in used)
-               THEN [feat |-> << Feat(ds, O, "way", ow, "Polygon", poly, ow.tags, tainted) >>, skip |-> skip0 \cup {ow.id}, used |-> {ow.id}]
-               ELSE [feat |-> << Feat(ds, O, "relation", r, "Polygon", poly, r.tags, tainted) >>, skip |-> skip0, used |-> {}]
+               THEN [feat |-> << PolyFeat(ds, O, "way", ow, "Polygon", poly, ow.tags, tainted) >>, skip |-> skip0 \cup {ow.id}, used |-> {ow.id}]
+               ELSE [feat |-> << PolyFeat(ds, O, "relation", r, "Polygon", poly, r.tags, tainted) >>, skip |-> skip0, used |-> {}]
   ELSE LET osecs == Join(outer)
            rings == [k \in DOMAIN osecs |-> RingOf(osecs[k], 1)]
            good  == SelectSeq(rings, LAMBDA g : iip \/ (Len(g) >= 4 /\ g[1] = g[Len(g)]))
@@ -273,9 +295,9 @@ PolyResult(ds, O, r, used, fixed) ==
           ELSE LET irings == [k \in DOMAIN isecs |-> RingOf(isecs[k], -1)]
                    mp == FoldLeft(LAMBDA acc, g : AddToMP(acc, g, iip), mp0, irings)
                IN IF mp0 # << >> /\ irings # << >>
-                  THEN [feat |-> << Feat(ds, O, "relation", r, Unmodelled, << >>, r.tags, tainted) >>, skip |-> skip0, used |-> {}]
+                  THEN [feat |-> << PolyFeat(ds, O, "relation", r, Unmodelled, << >>, r.tags, tainted) >>, skip |-> skip0, used |-> {}]
                   ELSE IF mp = << >> THEN [feat |-> << >>, skip |-> skip0, used |-> {}]
-                  ELSE [feat |-> << Feat(ds, O, "relation", r,
+                  ELSE [feat |-> << PolyFeat(ds, O, "relation", r,
                                          IF Len(mp) = 1 THEN "Polygon" ELSE "MultiPolygon",
                                          IF Len(mp) = 1 THEN mp[1] ELSE mp, r.tags, tainted) >>,
                         skip |-> skip0, used |-> {}]
@@ -297,7 +319,7 @@ WayResult(ds, O, skip, w) ==
 
 \* ---- node pass, one node (convert.go:124-143, nodeToFeature)
 NodeResult(ds, O, n) ==
-  IF InSomeWay(ds, n.id) /\ ~IsMember(ds, "node", n.id) /\ ~InterestingNil(n.tags) THEN << >>
+  IF InSomeWay(ds, n.id) /\ Memberships(ds, O, "node", n.id) = << >> /\ ~InterestingNil(n.tags) THEN << >>
   ELSE IF n.xy = Zero /\ n.meta.version = 0 THEN << >>        \* "our definition of empty"
   ELSE << Feat(ds, O, "node", n, "Point", n.xy, n.tags, FALSE) >>
 
@@ -310,7 +332,8 @@ ConvV(ds, O, fixed) ==
   LET rp == RelPass(ds, O, fixed)
       wp == FoldLeft(LAMBDA acc, w : acc \o WayResult(ds, O, rp.skip, w), rp.feats, ds.ways)
   IN FoldLeft(LAMBDA acc, n : acc \o NodeResult(ds, O, n), wp, ds.nodes)
-Conv(ds, O) == ConvV(ds, O, TRUE)           \* the tree as it is (with fix 626c4a8)
+Conv(ds, O) == ConvV(ds, O, TRUE)           \* the tree as it is (with fix 626c4a8; FeatureID handling as is)
+ConvIdeal(ds, O) == Conv(Ideal(ds), O)      \* what it is meant to do for every id class
 
 (* ======================================================================= *)
 (* Judge: the statement, over a feature list F for data set ds, options O  *)
@@ -459,4 +482,18 @@ OnlySharedOuterDuplicates(ds, F) ==
   /\ \A i, j \in DOMAIN F : (i < j /\ <<F[i].t, F[i].id>> = <<F[j].t, F[j].id>>) =>
         /\ F[i].t = "way"
         /\ Cardinality({k \in DOMAIN ds.rels : F[i].id \in OldStyleOuterOf(ds, ds.rels[k])}) >= 2
+
+\* ---- known findings about ids that do not fit osm.FeatureID (negative, >= 2^40); see notes/C17.md.
+\* The Model (Conv) reproduces both; ConvIdeal does not have them.
+\* (a) polygon relation features get an empty type and the id modulo 2^40
+KF_PolygonIdentityViaFeatureID(ds) ==
+  \E i \in DOMAIN ds.rels : IsPoly(ds.rels[i]) /\
+     (~Fits(ds.ids["relation"]) \/
+      (~Fits(ds.ids["way"]) /\ \E j \in DOMAIN ds.rels[i].members :
+                                  ds.rels[i].members[j].t = "way" /\ ds.rels[i].members[j].role = "outer"))
+\* (b) negative ids of different types share one key of the membership map: an element is reported (and, for
+\* nodes, treated) as a member of relations that list an element of another type with the same number
+KF_NegativeIdsShareMembershipKey(ds) ==
+  \E k \in DOMAIN Flat(ds) : LET m == Flat(ds)[k][2] IN
+     ds.ids[m.t] = "neg" /\ \E t2 \in {"node", "way", "relation"} \ {m.t} : ds.ids[t2] = "neg" /\ HasElem(ds, t2, m.ref)
 =============================================================================
